@@ -74,6 +74,9 @@ class Enc:
         if isinstance(x, list): return "(VList [%s])" % "; ".join(self.val(v, depth + 1) for v in x)
         if isinstance(x, tuple): return "(VTuple [%s])" % "; ".join(self.val(v, depth + 1) for v in x)
         if isinstance(x, dict): return "(VDict [%s])" % "; ".join("(%s, %s)" % (self.val(k, depth + 1), self.val(v, depth + 1)) for k, v in x.items())
+        if inspect.ismethod(x) and type(x.__self__).__module__.startswith("hierarc"):     # a bound method as a value (PySem's representation)
+            return "(VObj \"<bound method>\" [(\"self\", %s); (\"cls\", (VStr %s)); (\"name\", (VStr %s))])" % (
+                self.val(x.__self__, depth + 1), q(type(x.__self__).__name__), q(x.__name__))
         if getattr(type(x), "_is_proxy", False):
             return "(VObj %s [])" % q("<proxy:%s>" % x._px_name)
         t = type(x)
@@ -113,12 +116,12 @@ class Proxy(object):
             finally:
                 EXTERNAL[0] -= 1
             if EXTERNAL[0] > 0: return r
-            self._px_log.append(("%s.%s" % (self._px_name, a), snap(list(args) + list(kw.values())), snap(r), "<proxy:%s>" % self._px_name, a))
+            self._px_log.append(rec_entry("%s.%s" % (self._px_name, a), list(args) + list(kw.values()), r, "<proxy:%s>" % self._px_name, a))
             return r
         return call
     def __call__(self, *args, **kw):
         r = self._px_obj(*args, **kw)
-        self._px_log.append(("%s.__call__" % self._px_name, snap(list(args) + list(kw.values())), snap(r), "<proxy:%s>" % self._px_name, "__call__"))
+        self._px_log.append(rec_entry("%s.__call__" % self._px_name, list(args) + list(kw.values()), r, "<proxy:%s>" % self._px_name, "__call__"))
         return r
 
 
@@ -131,6 +134,18 @@ class FunPatch:
         for cname, owner, attr in self.mspecs:     # methods of hierarc classes that are NOT serialised for this property: replayed too
             orig = owner.__dict__[attr]
             self.saved.append((owner, attr, orig))
+            if isinstance(orig, property):
+                def pget(self_, __orig=orig.fget, __tag="%s.%s" % (cname, attr), __c=cname, __a="@" + attr):
+                    EXTERNAL[0] += 1
+                    try:
+                        r = __orig(self_)
+                    finally:
+                        EXTERNAL[0] -= 1
+                    if EXTERNAL[0] > 0: return r
+                    self.log.append(rec_entry(__tag, [], r, __c, __a))
+                    return r
+                setattr(owner, attr, property(pget))
+                continue
             f0 = orig.__func__ if isinstance(orig, staticmethod) else orig
             def mwrap(self_, *args, __orig=f0, __tag="%s.%s" % (cname, attr), __c=cname, __a=attr, __static=isinstance(orig, staticmethod), **kw):
                 EXTERNAL[0] += 1
@@ -139,21 +154,25 @@ class FunPatch:
                 finally:
                     EXTERNAL[0] -= 1
                 if EXTERNAL[0] > 0: return r      # nested inside another replayed call: invisible to PySem
-                self.log.append((__tag, snap(list(args) + list(kw.values())), snap(r), __c, __a))
+                self.log.append(rec_entry(__tag, list(args) + list(kw.values()), r, __c, __a))
                 return r
             setattr(owner, attr, mwrap)
-        for tag, owner, attr in self.specs:
+        for spec in self.specs:
+            tag, owner, attr = spec[:3]
+            pxname = spec[3] if len(spec) > 3 else None      # the result is itself an external object whose method calls are replayed
             orig = getattr(owner, attr)
             self.saved.append((owner, attr, orig))
-            def wrap(*args, __orig=orig, __tag=tag, **kw):
+            def wrap(*args, __orig=orig, __tag=tag, __px=pxname, **kw):
                 EXTERNAL[0] += 1
                 try:
                     r = __orig(*args, **kw)
                 finally:
                     EXTERNAL[0] -= 1
+                if __px is not None:
+                    r = Proxy(r, __px, self.log)
                 fr = sys._getframe(1)
                 if EXTERNAL[0] == 0 and "hierarc" in fr.f_code.co_filename:
-                    self.log.append((__tag, snap(list(args) + list(kw.values())), snap(r), None, None))
+                    self.log.append(rec_entry(__tag, list(args) + list(kw.values()), r, None, None))
                 return r
             setattr(owner, attr, wrap)
         return self
@@ -226,6 +245,14 @@ def build_fenv(items, enc_classes, extra_globals=()):
     return "[%s]" % ";\n   ".join(mt), "[%s]" % ";\n   ".join(gt)
 
 
+CUR_ENC = [None]    # the encoder of the lemma being generated: calls are encoded WHEN THEY HAPPEN (objects may be mutated later)
+
+
+def rec_entry(tag, args, r, pname, meth):
+    e = CUR_ENC[0]
+    return (tag, [e.val(x) for x in args], e.val(r), pname, meth)
+
+
 class HarnessError(Exception):
     """a problem of the generator itself (never a CPython observation)"""
 
@@ -267,6 +294,7 @@ def make_lemma(idx, case, items):
     zs = case.get("draws", [])
     calls = case.get("calls_log")
     if calls is None: calls = []
+    CUR_ENC[0] = enc
     with NormalPatch(zs) as npatch, FunPatch(case.get("patch", []), calls, case.get("patch_methods", [])):
         try:
             if obj is not None and isinstance(getattr(type(obj), fn, None), property):
@@ -286,14 +314,16 @@ def make_lemma(idx, case, items):
     # replay tables: per tag the results in call order; function tags go to the globals, proxy methods to the proxy's class
     by_tag, order = {}, []
     for tag, cargs, r, pname, meth in calls:
-        by_tag.setdefault(tag, dict(res=[], pname=pname, meth=meth))["res"].append(enc.val(r))
-        order.append("(%s, [%s])" % (q(tag), "; ".join(enc.val(x) for x in cargs)))
+        by_tag.setdefault(tag, dict(res=[], pname=pname, meth=meth))["res"].append(r)
+        order.append("(%s, [%s])" % (q(tag), "; ".join(cargs)))
     gt_case, mt_case = [], {}
     for tag, d in by_tag.items():
         if d["pname"] is None:
             gt_case.append("(%s, replay %s [%s])" % (q(tag), q(tag), "; ".join(d["res"])))
         else:
             mt_case.setdefault(d["pname"], []).append("(%s, replay_m %s [%s])" % (q(d["meth"]), q(tag), "; ".join(d["res"])))
+    for dc, dm in case.get("declare_methods", []):
+        mt_case.setdefault(dc, []).append("(%s, replay_m %s [])" % (q(dm), q("%s.%s" % (dc, dm))))
     genv = "(mk_fenv ([%s] ++ MT) ([%s] ++ GT))" % ("; ".join("(%s, [%s])" % (q(c), "; ".join(r)) for c, r in mt_case.items()), "; ".join(gt_case))
     if case.get("observe_self"):
         # a method that mutates its receiver: the body is run with the parameters bound as given and the receiver AS IT IS WHEN THE BODY
@@ -355,6 +385,7 @@ def run_shard(builddir, pid, shard, lemmas, mt, gt, timeout):
         if bad is None:
             mism.append(dict(case="shard %d" % shard, detail=err.strip()[-600:])); break
         mism.append(dict(case=bad["label"], lemma=bad["name"], observed=bad["observed"], detail=err.strip()[-600:]))
+        write_file(os.path.join(builddir, "PyCorrFail_%s.v" % bad["name"]), pid, [bad], mt, gt)       # kept for replay / debugging
         lem = [l for l in lem if l["name"] != bad["name"]]
     return mism
 
